@@ -1,6 +1,6 @@
 From Coq Require Import ExtrOcamlBasic.
-From HV Require Import Base.Res Base.Str Model.Parse Model.RefSplice Model.Assemble.
+From HV Require Import Base.Res Base.Str Model.Parse Model.RefSplice Model.Assemble Model.AssembleOps.
 Extraction Language OCaml.
 Extraction "../ocaml/build/c06_model.ml"
   force_types replace_ref find_refs column_refs detect_column_type final_column_map
-  assemble series_a wf_delim isspace is_ref_char hedstring_init.
+  assemble series_a wf_delim isspace is_ref_char hedstring_init run.
